@@ -545,6 +545,7 @@ fn part_a(cx: &Cx, b: BoundsA) {
     let parts_total = AtomicU64::new(0);
     let beats_total = AtomicU64::new(0);
     let raw_breaks = AtomicU64::new(0);
+    let zero_parts = AtomicU64::new(0);
     let nondeterministic = AtomicU64::new(0);
     let wrong_interval = AtomicU64::new(0);
     let polls_after_end = AtomicU64::new(0);
@@ -575,6 +576,9 @@ fn part_a(cx: &Cx, b: BoundsA) {
         beats_total.fetch_add(j.heartbeats as u64, Ordering::Relaxed);
         if j.raw_line_break_in_body {
             raw_breaks.fetch_add(1, Ordering::Relaxed);
+        }
+        if j.parts == 0 && j.findings.is_empty() {
+            zero_parts.fetch_add(1, Ordering::Relaxed);
         }
         let (evs, _) = events_of(&o.schedule);
         let has_r = evs.iter().any(|e| matches!(e, Ev::Resp(_)));
@@ -622,7 +626,7 @@ fn part_a(cx: &Cx, b: BoundsA) {
         json!({"responses_max": b.max_n, "timer_firings_max": b.ticks, "content_kinds": &KIND_NAMES[..b.kinds], "executions": st.executions, "distinct_schedules": distinct,
             "closed_form_schedules": want, "choice_points": st.points, "max_depth": st.max_depth, "gate_openings": moves.load(Ordering::Relaxed), "parts_parsed": parts_total.load(Ordering::Relaxed),
             "heartbeat_parts": beats_total.load(Ordering::Relaxed), "executions_with_raw_CR_or_LF_inside_a_part_body": raw_breaks.load(Ordering::Relaxed),
-            "each_execution_run_twice_identical": nd == 0, "input_polls_after_end_of_input": polls_after_end.load(Ordering::Relaxed)}),
+            "executions_whose_body_is_the_close_delimiter_alone": zero_parts.load(Ordering::Relaxed), "each_execution_run_twice_identical": nd == 0, "input_polls_after_end_of_input": polls_after_end.load(Ordering::Relaxed)}),
     );
 }
 
@@ -809,8 +813,8 @@ fn part_b(cx: &Cx, b: BoundsA) {
             }
         }
     }
-    let beats_lo = AtomicU64::new(0);
-    let beats_hi = AtomicU64::new(0);
+    // the (contents, script) pairs are enumerated without repetition: distinct by construction
+    let nontrivial = AtomicU64::new(0);
     let tick_first = AtomicBool::new(false);
     let resp_first = AtomicBool::new(false);
     cases.par_iter().for_each(|(kinds, steps)| {
@@ -819,7 +823,7 @@ fn part_b(cx: &Cx, b: BoundsA) {
         let j = judge_b(kinds, steps, &o);
         let id = agv_engine::h64(&("B", kinds, steps));
         if !kinds.is_empty() && steps.iter().any(|(a, t)| *a >= 1 && *t) {
-            cx.nontrivial(id);
+            nontrivial.fetch_add(1, Ordering::Relaxed);
             // which branch did select! serve first when a response and the timer were ready together?
             if steps.len() >= 1 && steps[0].0 >= 1 && steps[0].1 && j.findings.is_empty() {
                 if let Ok(parts) = read_multipart(&o.chunks.concat()) {
@@ -831,12 +835,7 @@ fn part_b(cx: &Cx, b: BoundsA) {
                 }
             }
         }
-        if j.heartbeats == 0 {
-            beats_lo.fetch_add(1, Ordering::Relaxed);
-        } else {
-            beats_hi.fetch_add(1, Ordering::Relaxed);
-        }
-        cx.sample_with(id, || json!({"part": "B", "kinds": kinds.iter().map(|k| KIND_NAMES[*k]).collect::<Vec<_>>(), "steps": steps, "parts": j.parts}));
+        cx.sample_with(id, || json!({"part": "B", "kinds": kinds.iter().map(|k| KIND_NAMES[*k]).collect::<Vec<_>>(), "steps": steps}));
         for x in j.findings {
             cx.violation(
                 Violation::new(
@@ -849,6 +848,7 @@ fn part_b(cx: &Cx, b: BoundsA) {
             );
         }
     });
+    cx.nontrivial_count(nontrivial.load(Ordering::Relaxed));
     cx.add_traces(cases.len() as u64);
     cx.add_transitions(cases.iter().map(|(_, s)| s.len() as u64).sum());
     cx.extra(
@@ -856,7 +856,6 @@ fn part_b(cx: &Cx, b: BoundsA) {
         json!({"scripts_with_a_burst_step": cases.len(), "responses_max": b.max_n, "timer_firings_max": b.ticks, "content_kinds": b.kinds,
             "select_served_response_first_somewhere": resp_first.load(Ordering::Relaxed), "select_served_timer_first_somewhere": tick_first.load(Ordering::Relaxed)}),
     );
-    let _ = (beats_lo, beats_hi);
 }
 
 // ---------------------------------------------------------------------------------------------
